@@ -5,6 +5,7 @@ package main
 //       dec:<hex>  dec2:<hexA>,<hexB>
 //       ser:<hex>,<fcd>,<payloadhex>,<ph>    rt:<hex>,<payloadhex>,<ph>   new:<sport>.<dport>.<len>.<csum>,<fcd>,<payloadhex>,<ph>
 //       big:<n>,<seed>,<ph>   round trip over a payload of n pseudo-random bytes (LCG from seed), summarised
+//       bigser:<n>,<seed>,<fcd>,<ph>   serialization of a field-built layer over such a payload, summarised
 // ph = n | 4:<srchex>:<dsthex> | 6:<srchex>:<dsthex>   network layer given to SetNetworkLayerForChecksum
 
 import (
@@ -222,6 +223,47 @@ func (ludp) Run(c Case) (res Result) {
 				}
 			}
 			res.Oracle = append(res.Oracle, lnJunkOracle(func() gopacket.SerializableLayer { return mk() }, payload, fix, csum)...)
+		case "bigser":
+			// new:-like serialization of ports 0x1234/53 over n LCG bytes; Length preset to uint16(n+8) for FixLengths off
+			n, seed := lnAtoi(a[0]), lnAtoi(a[1])
+			fix, csum, d := lnParseFCD(a[2])
+			payload := udpLCG(n, seed)
+			mk := func() *layers.UDP {
+				u := &layers.UDP{SrcPort: 0x1234, DstPort: 53, Length: uint16(n + 8)}
+				udpAttach(u, a[3])
+				return u
+			}
+			u := mk()
+			cls, out := lnSerialize(u, d, payload, fix, csum)
+			hdr := ""
+			if len(out) >= 8 {
+				hdr = lnHex(out[:8])
+			}
+			res.Obs = append(res.Obs, fmt.Sprintf("cls=%s;hdr=%s;outlen=%d;%s", cls, hdr, len(out), udpFields(u)))
+			res.Tags = append(res.Tags, "big-payload")
+			if !fix {
+				res.Tags = append(res.Tags, "no-fixlengths")
+			}
+			if cls == "ok" && !bytes.Equal(out[8:], payload) {
+				res.Oracle = append(res.Oracle, "C07:payload-touched\tSerializeTo changed the payload bytes")
+			}
+			inRange := n+8 <= 65535 || strings.HasPrefix(a[3], "6:")
+			if cls == "ok" && csum && inRange {
+				if ok, valid := udpRefValid(a[3], out); ok && !valid {
+					res.Oracle = append(res.Oracle, "C08:emitted\temitted UDP checksum fails the reference one's complement check")
+				}
+			}
+			if cls == "ok" && fix && inRange {
+				// C06 on the wire: the Length field is the datagram length, or 0 for a jumbogram over IPv6
+				want := n + 8
+				if want > 65535 {
+					want = 0
+				}
+				if int(u.Length) != want || int(out[4])<<8|int(out[5]) != want {
+					res.Oracle = append(res.Oracle, fmt.Sprintf("C06:roundtrip\tLength field %d written for a payload of %d bytes, want %d", u.Length, n, want))
+				}
+			}
+			res.Oracle = append(res.Oracle, lnJunkOracle(func() gopacket.SerializableLayer { return mk() }, payload, fix, csum)...)
 		case "rt", "big":
 			var payload, data []byte
 			var ph string
@@ -432,13 +474,28 @@ func (ludp) Gen(rng *rand.Rand, tier string) []Case {
 		}
 	}
 	// payload sizes around the uint16 length boundary (jumbo rule over IPv6, wrap over IPv4)
-	sizes := []int{1472, 65526, 65527, 65528}
+	sizes := []int{1472}
 	if tier == "thorough" {
-		sizes = append(sizes, 65529, 65535, 65536, 70000, 131072)
+		sizes = append(sizes, 65000, 70000, 131072, 131073)
 	}
+	ph6 := "6:" + hx(lnRandBytes(rng, 16)) + ":" + hx(lnRandBytes(rng, 16))
 	for _, n := range sizes {
-		for _, ph := range []string{"4:0a000001:0a000002", "6:" + hx(lnRandBytes(rng, 16)) + ":" + hx(lnRandBytes(rng, 16))} {
+		for _, ph := range []string{"4:0a000001:0a000002", ph6} {
 			add(fmt.Sprintf("big:%d,%d,%s", n, rng.Intn(1<<30), ph))
+		}
+	}
+	// EVERY payload length 65520..65540 (Length field 65528..65535, the jumbogram rule from 65528 on,
+	// the uint16 wrap over IPv4), round trip and serialization with FixLengths on and off
+	for n := 65520; n <= 65540; n++ {
+		for _, ph := range []string{"4:0a000001:0a000002", ph6} {
+			seed := rng.Intn(1 << 30)
+			add("tag:length-boundary", fmt.Sprintf("big:%d,%d,%s", n, seed, ph))
+			add("tag:length-boundary", fmt.Sprintf("bigser:%d,%d,10%d,%s", n, seed, rng.Intn(3), ph))
+			add("tag:length-boundary", fmt.Sprintf("bigser:%d,%d,00%d,%s", n, seed, rng.Intn(3), ph))
+			if n%4 == 0 || tier == "thorough" {
+				add("tag:length-boundary", fmt.Sprintf("bigser:%d,%d,01%d,%s", n, seed, rng.Intn(3), ph))
+				add("tag:length-boundary", fmt.Sprintf("bigser:%d,%d,11%d,%s", n, seed, rng.Intn(3), ph))
+			}
 		}
 	}
 	return out
